@@ -10,7 +10,7 @@ from harness.ekorelaws.classes import expo100
 META = {
     "id": "C29",
     "level": "exploration",
-    "technique": "law SumRules for the unpolarised space-like matching elements (which column sums of the (g, light, heavy) singlet matrix vanish at N = 2, non-singlet entry at N = 1, accuracy class per order: table in EkoreLaws.tla) and laws OmeRge (first-order L-dependence of the singlet matrices tied to the code's own leading-order anomalous dimensions of the nf and nf+1 schemes) and OmeRgeNs (second- and third-order L-dependence of the non-singlet element tied to the code's own gamma_ns^-, beta coefficients and coupling decoupling table); TLC enumerates rule x order x nf x scheme x L point; residuals of the real un-jitted functions recorded as integer exponents; trace validated by TLC (EkoreLawsTrace)",
+    "technique": "law SumRules for the unpolarised space-like matching elements (which column sums of the (g, light, heavy) singlet matrix vanish at N = 2, non-singlet entry at N = 1, accuracy class per order: table in EkoreLaws.tla) and laws OmeRge (first-order L-dependence of the singlet matrices tied to the code's own leading-order anomalous dimensions of the nf and nf+1 schemes) OmeRge2 (second-order L-dependence of every entry of the unpolarised and polarised singlet matrices, in the basis (g, Sigma_light, h+), tied to the code's own LO and NLO singlet and ns+ anomalous dimensions of both schemes, beta0 and the decoupling of the coupling) and OmeRgeNs (second- and third-order L-dependence of the non-singlet element tied to the code's own gamma_ns^-, beta coefficients and coupling decoupling table); TLC enumerates rule x order x nf x scheme x L point; residuals of the real un-jitted functions recorded as integer exponents; trace validated by TLC (EkoreLawsTrace)",
     "text": "Sum rules: for orders 1-3, nf 3-5, L drawn in [-3, 3] (J values per cell), pole-mass and MSbar variants at second order: A_gg + A_qg + A_Hg = 0 and A_gq + A_qq + A_Hq = 0 at N = 2 including the heavy-quark row (first order also the heavy-quark column), A_qq^NS = 0 at N = 1. Where an expression is singular at the point (third-order light-quark column: 1/(N-2)), N is approached from four directions of the complex plane at distance 1e-7. Residuals are relative to the sum of the moduli of the entries, maximised over nf and over L in {L, -3, 3}. Required: first order 1e-9, second order 1e-5, third order (parametrised a_Hg^(3), fitted a_qq^NS(3)) 1e-4. RG law, first order only: dA^(1)/dL = Gamma_0^(nf) - Gamma_0^(nf+1) entry by entry in the basis (g, Sigma_light, h+) with the heavy quark inert in the nf scheme and gamma_qg (time-like: gamma_gq) split nf : 1 in the nf+1 scheme, built from the code's own leading-order anomalous dimensions, for unpolarised (all three columns), polarised and time-like matching (gluon and light-quark columns) at random complex N; the derivative is the exact difference A(L+1/2) - A(L-1/2) of a polynomial of degree 1 (class 1e-8; unchanged tree 2.5e-16 for the space-like variants).",
     "note": "The RG clause is decided at first order only. At second and third order the law needs the products A^(1) Gamma_0, the two-loop decoupling and the scheme-dependent mass terms with the conventions of the heavy-quark column, which the code truncates differently per order (the intrinsic heavy-quark column exists at first order only); a sound acceptance class could not be derived within this round, so those cells are not planned (said so instead of a weak check). Unchanged tree: sum rules <= 2e-16 (first), <= 1.6e-8 (second), <= 1.3e-7 (third order, dominated by the distance 1e-7 of the limit): margins of 2.8 / 2.9 decades to the class; a violation below 1e-5 / 1e-4 relative is not detected.",
     "design_ref": "4.11, 5 C29",
@@ -34,6 +34,8 @@ def measure_cell(cell, seed):
         return omerge.measure_cell(cell, seed)
     if cell["law"] == "OmeRgeNs":
         return omerge.measure_ns_cell(cell, seed)
+    if cell["law"] == "OmeRge2":
+        return omerge.measure_rge2_cell(cell, seed)
     rng = E.cell_rng(seed, {"j": cell["j"]}, "C29")  # the same L for all rules of one index
     L = rng.uniform(-3.0, 3.0)
     at = float(cell["def"]["at"])
@@ -57,7 +59,7 @@ def run(chk):
     worst = {}
     for c, o, i in measured:
         chk.count(1, E.cell_key(c), nontrivial=True)
-        key = f"{c['law']} {c.get('rule', c.get('v'))} k={c['k']}"
+        key = f"{c['law']} {c.get('rule', c.get('v'))} k={c['k']}" + (f" {c['entry']}" if "entry" in c else "")
         worst[key] = max(worst.get(key, 0.0), i["res"])
     chk.note("worst_relative_residual", {k: f"{v:.2e}" for k, v in sorted(worst.items())})
     chk.note("cells_evaluated_by_limit", sum(1 for _, _, i in measured if i.get("limit")))
@@ -66,13 +68,13 @@ def run(chk):
     bad, unres = E.validate(chk, "C29", J, recs, "measured cells of OME SumRules / OmeRge")
 
     def describe(cell, obs, info):
-        if cell["law"] in ("OmeRge", "OmeRgeNs"):
+        if cell["law"] in ("OmeRge", "OmeRgeNs", "OmeRge2"):
             return (f"L-dependence of the {cell['v']} matching at order {cell['k']}, nf={cell['nf']}: dA/dL differs from the "
                     f"RG prediction by {info['res']:.3e} (relative) at N={info['n']}, L={info['L']:.3f}, entry {info.get('entry')}")
         return (f"OME sum rule {cell['rule']} order {cell['k']} nf={cell['nf']} msbar={cell['msbar']} L={info['L']:.3f}: "
                 f"|column sum| = {info['abs']:.3e}, relative {info['res']:.3e}")
 
-    E.report(chk, "C29", measured, bad, unres, ("law", "rule", "v", "k", "msbar"), describe)
+    E.report(chk, "C29", measured, bad, unres, ("law", "rule", "v", "k", "msbar", "entry"), describe)
 
     def corrupt(r):
         r["obs"]["e"] = -100
